@@ -218,6 +218,9 @@ func c13Op(b []byte) (out string) {
 	if strings.Contains(w, "!") || strings.Contains(w, "PANIC") {
 		add("reread-error")
 	}
+	if what := typedOpenDiffers(b, v, 0); what != "" {
+		add("typed-open-" + what)
+	}
 	for _, p := range c13Prefixes {
 		pb := append(append([]byte{}, p...), v...)
 		func() {
@@ -240,4 +243,67 @@ func c13Op(b []byte) (out string) {
 		return "accepted " + strconv.Itoa(n)
 	}
 	return "VIOL " + strings.Join(bad, " ")
+}
+
+// typedOpenDiffers: the non-recursive typed opens (OpenMessage/OpenList, with and without an error
+// result, and Value.Message/List) delimit an accepted list or message as the parser did: their
+// Raw() is the parsed value v; the same holds for every nested list and message. in is the input
+// the value is the suffix of (a prefix may precede it).
+func typedOpenDiffers(in, v []byte, depth int) (what string) {
+	defer func() {
+		if e := recover(); e != nil {
+			what = "panics"
+		}
+	}()
+	if len(v) == 0 || depth > 64 {
+		return ""
+	}
+	switch spec.Type(v[len(v)-1]) {
+	case spec.TypeMessage, spec.TypeBigMessage:
+		m := spec.OpenMessage(in)
+		if !bytes.Equal(m.Raw(), v) {
+			return "message-differs"
+		}
+		if m2, err := spec.OpenMessageErr(in); err != nil || !bytes.Equal(m2.Raw(), v) {
+			return "message-err-differs"
+		}
+		if !bytes.Equal(spec.Value(in).Message().Raw(), v) {
+			return "value-message-differs"
+		}
+		for i := 0; i < m.Fields() && i < 300; i++ {
+			if w := typedOpenNested(m.FieldAt(i), depth); w != "" {
+				return w
+			}
+		}
+	case spec.TypeList, spec.TypeBigList:
+		l := spec.OpenList(in)
+		if !bytes.Equal(l.Raw(), v) {
+			return "list-differs"
+		}
+		if l2, err := spec.OpenListErr(in); err != nil || !bytes.Equal(l2.Raw(), v) {
+			return "list-err-differs"
+		}
+		if !bytes.Equal(spec.Value(in).List().Raw(), v) {
+			return "value-list-differs"
+		}
+		for i := 0; i < l.Len() && i < 300; i++ {
+			if w := typedOpenNested(l.Get(i), depth); w != "" {
+				return w
+			}
+		}
+	}
+	return ""
+}
+
+// typedOpenNested: a nested field or element is the suffix of its slot that the parser delimits
+// (bytes may precede it inside the slot).
+func typedOpenNested(slot []byte, depth int) string {
+	if len(slot) == 0 {
+		return ""
+	}
+	_, n, err := spec.ParseValue(slot)
+	if err != nil || n < 0 || n > len(slot) {
+		return "" // reported by the re-read check
+	}
+	return typedOpenDiffers(slot, slot[len(slot)-n:], depth+1)
 }
